@@ -126,6 +126,9 @@ pub struct Beh {
     #[serde(default)]
     pub nobounds: bool,
     pub polys: Vec<PolySpec>,
+    /// linear codes: the public option check_well_formedness the parameters are built with
+    #[serde(default = "dtrue")]
+    pub wf: bool,
     #[serde(default = "dtrue")]
     pub rng: bool,
     #[serde(default)]
@@ -159,6 +162,9 @@ pub struct OpObs {
     pub n_proofs: usize,
     /// C10: decision of the independent reference relation ("accept" | "reject" | "" = not evaluated)
     pub reference: String,
+    /// coarse shape of the sponge events of the prover's call / the verifier's call (Transcript.tla vocabulary)
+    pub sp_shape_p: Vec<String>,
+    pub sp_shape_v: Vec<String>,
 }
 
 #[derive(Serialize, Clone, Debug, Default)]
